@@ -2837,7 +2837,8 @@ RULES = {
     "C16": [rule_coded_stream_bounds, rule_blocks, rule_fill_loops_end, rule_stream_reads_counted, rule_no_swallowed_eof, rule_ndjson_lookahead, rule_ndjson_presence_by_key, rule_varint_decoders_agree],
     "C01": [rule_varint_decoders_agree, rule_coded_stream_bounds, rule_serializer_twins, rule_output_order, rule_reader_overwrites, rule_trivial_trait_set, rule_blocks, rule_zigzag_width, rule_integer_dispatch, rule_shift_in_destination_type, rule_varint_constants],
     "C15": [rule_cxx_header, rule_ndjson_header, rule_no_static_locals_from_arguments],
-    "C02": [rule_ndjson_lookahead, rule_ndjson_presence_by_key, rule_ndjson_field_omission],
+    "C02": [rule_ndjson_lookahead, rule_ndjson_presence_by_key, rule_ndjson_field_omission, rule_ndjson_header, rule_no_static_locals_from_arguments],
+    "C14": [rule_integer_dispatch],
     "C04": [rule_cxx_header, rule_output_order, rule_ndjson_header, rule_no_static_locals_from_arguments],
     "C03": [rule_blocks, rule_ndjson_lookahead, rule_ndjson_presence_by_key, rule_varint_decoders_agree, rule_output_order, rule_reader_overwrites, rule_integer_dispatch, rule_shift_in_destination_type, rule_zigzag_width, rule_varint_constants],
     "C17": [rule_ndjson_presence_by_key, rule_ndjson_lookahead, rule_reader_overwrites, rule_blocks, rule_trivial_trait_set, rule_output_order, rule_pointer_offset_units, rule_coded_stream_bounds],
